@@ -354,6 +354,25 @@ class LoopState:
         return self.entry[name]
 
 
+class LemmaSet:
+    """facts about spec functions (no code involved): fn(eng) -> [(label, goal)] proved under the axioms the
+    models add while the goal is built"""
+
+    def __init__(self, name, fn, variant=""):
+        self.module = "spec"
+        self.qualname = name
+        self.fn = fn
+        self.variant = variant
+        self.definedness = "D"
+        self.inline_callees = set()
+        self.hints = []
+        self.loops = {}
+
+    @property
+    def key(self):
+        return ("spec", self.qualname)
+
+
 class Contract:
     def __init__(self, module, qualname, make_args, requires=None, ensures=None, raises=None, loops=None,
                  summary=None, definedness="D", inline_callees=(), notes="", hints=None, variant=""):
@@ -411,6 +430,7 @@ class Engine:
         self.hint_hits = set()
         self.top_env = None
         self.extra_probes = {}
+        self.in_spec = 0
         self.quick_ms = 400
         self.defer_sat = True     # models are produced by the external pass (smaller, bounded sizes)
 
@@ -582,6 +602,8 @@ class Engine:
         if z3.is_true(t):
             return
         cls = self.cur_contract.definedness if self.cur_contract else "D"
+        if self.in_spec:
+            cls, msg = "S", "spec " + msg
         if self.must(t):
             # cheap path: provable with the feasibility budget; still recorded as an obligation
             self.obs.append(Ob("%s.defined.%s" % (self.cur_label(), _slug(msg)), "discharged", "z3", 0.0, cls, ("defined",),
@@ -604,22 +626,50 @@ class Engine:
         return self.top_qual() if self.cur_func is None else self.cur_func
 
     def top_qual(self):
+        if self.top_key and self.top_key[0] == "spec":
+            return "spec:" + self.top_key[1]
         return "%s:%s" % (self.top_key[0].replace("persim/", "").replace(".py", "").replace("/", "."), self.top_key[1]) if self.top_key else "?"
 
     def py_raise(self, typ, msg=""):
         raise PyRaise(typ, msg)
 
     # ------------------------------------------------------------------ quantifier helpers
+    def spec_eval(self, thunk):
+        self.in_spec += 1
+        try:
+            return thunk()
+        finally:
+            self.in_spec -= 1
+
+    def under(self, hyp, thunk):
+        """evaluate thunk() with `hyp` temporarily assumed (definedness obligations raised inside see it)"""
+        self.solver.push()
+        n0 = len(self.path_assumptions)
+        try:
+            self.assume(hyp)
+            return thunk()
+        finally:
+            self.solver.pop()
+            del self.path_assumptions[n0:]
+
     def forall(self, n, fn, lo=0, name="q"):
         k = z3.Int(self.uniq(name))
-        body = zb(fn(Num(k)))
-        return z3.ForAll([k], z3.Implies(z3.And(k >= to_z3(lo), k < to_z3(n)), body))
+        rng = z3.And(k >= to_z3(lo), k < to_z3(n))
+        body = self.under(rng, lambda: zb(fn(Num(k))))
+        return z3.ForAll([k], z3.Implies(rng, body))
+
+    def exists(self, n, fn, lo=0, name="x"):
+        k = z3.Int(self.uniq(name))
+        rng = z3.And(k >= to_z3(lo), k < to_z3(n))
+        body = self.under(rng, lambda: zb(fn(Num(k))))
+        return z3.Exists([k], z3.And(rng, body))
 
     def forall2(self, n1, n2, fn, name="q"):
         i = z3.Int(self.uniq(name + "i"))
         j = z3.Int(self.uniq(name + "j"))
-        body = zb(fn(Num(i), Num(j)))
-        return z3.ForAll([i, j], z3.Implies(z3.And(i >= 0, i < to_z3(n1), j >= 0, j < to_z3(n2)), body))
+        rng = z3.And(i >= 0, i < to_z3(n1), j >= 0, j < to_z3(n2))
+        body = self.under(rng, lambda: zb(fn(Num(i), Num(j))))
+        return z3.ForAll([i, j], z3.Implies(rng, body))
 
     def fresh_int(self, name, lo=None, hi=None):
         x = z3.Int(self.uniq(name))
@@ -679,6 +729,8 @@ class Engine:
     def verify(self, contract, time_budget_s=600):
         """explore all paths of the function under `contract`; returns list of Ob"""
         self.top_key = contract.key
+        if isinstance(contract, LemmaSet):
+            return self.run_lemmas(contract)
         mod = self.module(contract.module)
         func = mod.find_function(contract.qualname)
         if func is None or not isinstance(func, PyFunc):
@@ -699,6 +751,32 @@ class Engine:
             outcomes.append(self.run_path(func, contract, prefix))
         self.n_paths = n_paths
         return outcomes
+
+    def run_lemmas(self, ls):
+        V.ENGINE = self
+        self.solver = self.new_solver()
+        self.path_assumptions = []
+        self.decisions, self.dpos, self.pending = [], 0, []
+        self.name_ctr = {}
+        self.cur_contract = ls
+        self.cur_func = None
+        self.path_id = 1
+        self.n_paths = 1
+        try:
+            for item in ls.fn(self):
+                if item[0] == "assume":
+                    self.assume(item[1])
+                    continue
+                self.solver.push()
+                n0 = len(self.path_assumptions)
+                for h in (item[2] if len(item) > 2 else []):
+                    self.assume(h)
+                self.oblige(item[0], item[1], cls="L")
+                self.solver.pop()
+                del self.path_assumptions[n0:]
+        finally:
+            V.ENGINE = None
+        return [("lemmas", None)]
 
     def _check_loop_fingerprints(self, func, contract):
         loops = [n for n in _walk_loops(func.node)]
@@ -731,7 +809,7 @@ class Engine:
             args, ghost = contract.make_args(self)
             self.ghost = ghost
             a = ArgView(args, ghost, self)
-            for item in contract.requires(a):
+            for item in self.spec_eval(lambda: contract.requires(a)):
                 self.assume(zb(item[1]))
             # vacuity guard: the precondition must be satisfiable
             if self.check() == z3.unsat:
@@ -746,13 +824,13 @@ class Engine:
                 outcome = ("raise", ex.typ, ex.msg)
             a.warnings = list(self.warnings)
             if contract.raises is not None:
-                for label, typ, cond in contract.raises(a):
+                for label, typ, cond in self.spec_eval(lambda: contract.raises(a)):
                     raised = outcome[0] == "raise" and exc_matches(outcome[1], [typ])
                     # raises typ iff cond:   on this path, cond must agree with what happened
                     self.oblige("raises.%s" % label, zb(cond) if raised else z3.Not(zb(cond)), cls="P", tags=("raises",),
                                 detail="outcome=%s" % (outcome[:2],))
             if outcome[0] == "return":
-                for item in contract.ensures(a, outcome[1]):
+                for item in self.spec_eval(lambda: contract.ensures(a, outcome[1])):
                     label, goal = item[0], item[1]
                     cls = item[2] if len(item) > 2 else "P"
                     tags = item[3] if len(item) > 3 else ()
@@ -761,7 +839,7 @@ class Engine:
                 self.oblige("no_exception", z3.BoolVal(False), cls="P", tags=("raises",),
                             detail="unexpected %s: %s" % (outcome[1], outcome[2]))
             else:
-                known = [typ for _l, typ, _c in contract.raises(a)]
+                known = [typ for _l, typ, _c in self.spec_eval(lambda: contract.raises(a))]
                 if not any(exc_matches(outcome[1], [t]) for t in known):
                     self.oblige("no_unlisted_exception", z3.BoolVal(False), cls="P", tags=("raises",),
                                 detail="unexpected %s: %s" % (outcome[1], outcome[2]))
@@ -1037,13 +1115,13 @@ class Engine:
         tag = "loop%d" % ordn
         entry = dict(env.vars)
         s0 = LoopState(self, env, entry=entry)
-        for item in lc.inv(s0):
+        for item in self.spec_eval(lambda: lc.inv(s0)):
             self.oblige("%s.init.%s" % (tag, item[0]), item[1], cls=(item[2] if len(item) > 2 else lc.cls))
         mod = _assigned_names(st) | set(lc.havoc)
         arbitrary = self.decide(tag)
         self.havoc(env, mod, lc, st, entry)
         s1 = LoopState(self, env, entry=entry)
-        for item in lc.inv(s1):
+        for item in self.spec_eval(lambda: lc.inv(s1)):
             self.assume(zb(item[1]))
         c = self.truth(self.eval(st.test, env))
         if arbitrary:
@@ -1057,7 +1135,7 @@ class Engine:
             except _Break:
                 raise Unsupported("break inside a loop under contract")
             s2 = LoopState(self, env, entry=entry)
-            for item in lc.inv(s2):
+            for item in self.spec_eval(lambda: lc.inv(s2)):
                 self.oblige("%s.preserve.%s" % (tag, item[0]), item[1], cls=(item[2] if len(item) > 2 else lc.cls))
             if v0 is not None:
                 v1 = lc.variant(s2)
@@ -1096,7 +1174,7 @@ class Engine:
         n_eff = ite(lift(n) >= 0, n, 0) if not self.must(to_z3(n) >= 0) else n
         entry = dict(env.vars)
         s0 = LoopState(self, env, k=0, n=n_eff, seq=seq, entry=entry)
-        for item in lc.inv(s0):
+        for item in self.spec_eval(lambda: lc.inv(s0)):
             self.oblige("%s.init.%s" % (tag, item[0]), item[1], cls=(item[2] if len(item) > 2 else lc.cls))
         mod = (_assigned_names(st) | set(lc.havoc)) - _target_names(st.target)
         arbitrary = self.decide(tag)
@@ -1106,7 +1184,7 @@ class Engine:
             self.assume(z3.And(k.t >= 0, k.t < to_z3(n_eff)))
             env.vars["__k_" + tag] = k
             s1 = LoopState(self, env, k=k, n=n_eff, seq=seq, entry=entry)
-            for item in lc.inv(s1):
+            for item in self.spec_eval(lambda: lc.inv(s1)):
                 self.assume(zb(item[1]))
             self.assign(st.target, seq.get(k), env)
             try:
@@ -1116,12 +1194,12 @@ class Engine:
             except _Break:
                 raise Unsupported("break inside a loop under contract")
             s2 = LoopState(self, env, k=k + 1, n=n_eff, seq=seq, entry=entry)
-            for item in lc.inv(s2):
+            for item in self.spec_eval(lambda: lc.inv(s2)):
                 self.oblige("%s.preserve.%s" % (tag, item[0]), item[1], cls=(item[2] if len(item) > 2 else lc.cls))
             raise PathEnd()
         else:
             s1 = LoopState(self, env, k=n_eff, n=n_eff, seq=seq, entry=entry)
-            for item in lc.inv(s1):
+            for item in self.spec_eval(lambda: lc.inv(s1)):
                 self.assume(zb(item[1]))
             # python leaves the loop variable bound to the last element; not relied upon here
             self.exec_block(st.orelse, env)
@@ -1495,6 +1573,12 @@ class Engine:
             r = models.contains(self, b, a)
             return b_not(r) if isinstance(op, ast.NotIn) else r
         if isinstance(op, (ast.Eq, ast.NotEq)):
+            if isinstance(a, Arr) or isinstance(b, Arr):
+                if isinstance(a, (list, tuple)) or isinstance(b, (list, tuple)):
+                    from .arrays import from_nested
+                    a = from_nested(list(a)) if isinstance(a, (list, tuple)) else a
+                    b = from_nested(list(b)) if isinstance(b, (list, tuple)) else b
+                return (a != b) if isinstance(op, ast.NotEq) else (a == b)
             r = models.generic_eq(self, a, b)
             return b_not(r) if isinstance(op, ast.NotEq) else r
         f = {ast.Lt: O.lt, ast.LtE: O.le, ast.Gt: O.gt, ast.GtE: O.ge}[type(op)]
